@@ -291,6 +291,12 @@ def run(repo, rep):
     _dp, _dn = _dop(repo)
     rep.check(not _dp, 'C20.H9', 'package:descriptor-owners', '', '%d object(s) built on a descriptor number, none on fileno() of a live object'
               % _dn, '; '.join(_dp[:3]))
+    rep.rule('C20.H10', 'what an application handler returns is not changed in place by the service functions (it is the application\'s '
+             'object, shared by the associations that get it): no store into it, no mutating method on it', 1)
+    from ..svc_model import handler_result_mutations as _hrm
+    _hp, _hn = _hrm(repo)
+    rep.check(not _hp, 'C20.H10', 'sopclass:handler-results', repo.module('sopclass').relpath,
+              '%d local(s) bound to handler results, none changed in place' % _hn, '; '.join(_hp[:3]))
     _selfcheck()
     rep.assume('NOT DECIDED by this family: behaviour under concrete thread interleavings, independence of failures')
     rep.trust('CPython: threading.local gives per-thread attributes; dict/set single operations are atomic under the GIL; '
